@@ -28,6 +28,7 @@ class TaskScenario(ScenarioData):
         self._lastBookedResource: Optional[Any] = None
         self._lastBookedSlot: Optional[int] = None
         self._slotUsedBefore: float = 0.0
+        self._offsetSlotIdx: Optional[int] = None
 
         # Ensure required attributes exist
         required_attrs = [
@@ -520,6 +521,7 @@ class TaskScenario(ScenarioData):
                         self.slotStartOffset = offset_seconds
                     else:
                         self.slotStartOffset = 0.0
+                    self._offsetSlotIdx = slot_idx
                     self.currentSlotIdx = slot_idx
             else:
                 # ALAP (backward) scheduling
@@ -1429,7 +1431,12 @@ class TaskScenario(ScenarioData):
 
         # For the FIRST slot of this task, apply start offset from dependency
         # This marks the portion already used by predecessor as unavailable
-        if hasattr(self, "slotStartOffset") and self.slotStartOffset > 0 and self.doneEffort == 0:
+        if (
+            hasattr(self, "slotStartOffset")
+            and self.slotStartOffset > 0
+            and self.doneEffort == 0
+            and self.currentSlotIdx == self._offsetSlotIdx
+        ):
             # Mark the offset portion as used (by predecessor task)
             current_used = res_scenario.slotSecondsUsed.get(self.currentSlotIdx, 0.0)
             if current_used < self.slotStartOffset:
